@@ -33,6 +33,9 @@ func init() {
 			c10AccessRefresh(r)
 			c10Idle(r)
 			c10DefaultsAppliedLast(r)
+			customConfigOverrides(r)
+			c10IdleJudgedOnOwnerRecord(r)
+			c10OwnedCountByCurrentOwner(r)
 			c10EvictionScansEveryPartition(r)
 			c10LRUSampleUnfiltered(r)
 			kvLookupVisitsEveryTable(r)
